@@ -248,7 +248,7 @@ def compare(ob, repo_prog, ref_prog, module, fname, same_term, backend='ecdsa'):
     # (candidate, reference) under which both sides have the same segment / loop structure is compared
     fi = a = b = sig_a = sig_b = None
     tried = {}
-    for la, lb in ((0, 0), (1, 1), (2, 2), (2, 0), (0, 2), (1, 0), (2, 1)):
+    for la, lb in ((0, 0), (1, 1), (2, 2), (2, 0), (0, 2), (1, 0), (2, 1), (3, 3), (2, 3), (0, 3), (1, 3), (3, 2), (3, 0)):
         try:
             if ('a', la) not in tried:
                 tried[('a', la)] = describe(repo_prog, module, fname, backend, shared, pt, la)
@@ -380,6 +380,37 @@ def _norm_pred(var, pred):
     return pred
 
 
+def _run_item(p_):
+    """the single item a strip argument / a compared element stands for: b'\\x00' and 0 are the same byte"""
+    if T.is_const(p_) and isinstance(p_[1], bytes) and len(p_[1]) == 1:
+        return T.const(p_[1][0])
+    if T.is_const(p_) and isinstance(p_[1], str) and len(p_[1]) == 1:
+        return p_
+    if T.is_const(p_) and isinstance(p_[1], int) and not isinstance(p_[1], bool):
+        return p_
+    return None
+
+
+def _leadrun(r):
+    """len(X) - len(X.lstrip(P)) for a one-item P, and the operator the evaluator makes of a counting loop (astnorm level 3):
+    LEADRUN(X, item)"""
+    if T.is_op(r, 'LEADRUN') and len(r) == 4:
+        it = _run_item(r[3])
+        return ('op', 'LEADRUN', r[2], it) if it is not None else None
+    a = b = None
+    if T.is_op(r, 'SUB') and len(r) == 4:
+        a, b = r[2], r[3]
+    elif T.is_op(r, 'ADD') and len(r) == 4:
+        for u, w in ((r[2], r[3]), (r[3], r[2])):
+            if T.is_op(w, 'MUL') and T.const(-1) in w[2:] and len(w) == 4:
+                a, b = u, [z for z in w[2:] if z != T.const(-1)][0]
+    if a is not None and T.is_op(a, 'LEN') and T.is_op(b, 'LEN') and T.is_op(b[2], 'LSTRIP') and len(b[2]) == 4 and b[2][2] == a[2]:
+        it = _run_item(b[2][3])
+        if it is not None:
+            return ('op', 'LEADRUN', a[2], it)
+    return None
+
+
 def canon(t, _memo=None):
     """idiom-level canonical form applied to both sides before comparing"""
     memo = {} if _memo is None else _memo
@@ -396,7 +427,10 @@ def canon(t, _memo=None):
     if k == 'op':
         r = ('op', t[1]) + tuple(canon(x, memo) if isinstance(x, tuple) else x for x in t[2:])
         m = _minbytes(r)
-        if m is not None:
+        lr = _leadrun(r)
+        if lr is not None:
+            r = lr
+        elif m is not None:
             r = m
         elif _single_char(r[3] if r[1] == 'INDEX' and len(r) == 4 else (r[2] if r[1] == 'IN' and len(r) == 4 else None)):
             # membership / position of ONE character in a constant alphabet: a case analysis over its characters
